@@ -506,7 +506,7 @@ func run(p *Plan, count bool) error {
 						rec.fail("reader %d: the version route answered %d without a stamp", r, w.Code)
 					}
 					seeStamp(s, "ServeHTTP")
-				case "iter", "view":
+				case "iter", "view", "rtxn-commit", "rtxn-abort":
 					// one snapshot: the stamp and the state of every key must belong together
 					var so snapObs
 					so.who = fmt.Sprintf("reader %d %s", r, st.Kind)
@@ -524,6 +524,23 @@ func run(p *Plan, count bool) error {
 									state[i] = verOf(rte)
 								}
 							}
+						}
+					} else if st.Kind == "rtxn-commit" || st.Kind == "rtxn-abort" {
+						// a read-only transaction held over a scheduling point and then ended with Commit or Abort, both
+						// documented as doing nothing for a read transaction: whatever writers committed meanwhile stays
+						txn := f.Txn(false)
+						so.stamp = stampOf(txn.Route("GET", "/__version"))
+						for i, kk := range keys {
+							state[i] = verOf(txn.Route(kk.Method, kk.Pattern))
+						}
+						runtime.Gosched()
+						if again := stampOf(txn.Route("GET", "/__version")); again != so.stamp {
+							rec.fail("%s: the version seen through one read-only transaction changed from %d to %d", so.who, so.stamp, again)
+						}
+						if st.Kind == "rtxn-commit" {
+							txn.Commit()
+						} else {
+							txn.Abort()
 						}
 					} else {
 						_ = f.View(func(txn *fox.Txn) error {
@@ -685,7 +702,7 @@ func genPlan(t *rapid.T) *Plan {
 	for r := 0; r < nr; r++ {
 		var steps []RStep
 		for i := 0; i < rlen; i++ {
-			st := RStep{Kind: gen.Pick(t, []string{"has", "route", "serve", "lookup", "reverse", "iter", "view", "version", "iter-reverse", "iter-routes", "iter-prefix"}, "rkind"), Key: gen.IntR(t, 0, len(keys)-1, "rkey"), Yield: gen.Chance(t, 1, 5, "yield")}
+			st := RStep{Kind: gen.Pick(t, []string{"has", "route", "serve", "lookup", "reverse", "iter", "view", "version", "iter-reverse", "iter-routes", "iter-prefix", "rtxn-commit", "rtxn-abort"}, "rkind"), Key: gen.IntR(t, 0, len(keys)-1, "rkey"), Yield: gen.Chance(t, 1, 5, "yield")}
 			if gen.Chance(t, 1, 4, "infix") {
 				// requests that go through pooled sub-contexts (infix catch-all), concurrently from several readers
 				st.Kind, st.Key = gen.Pick(t, []string{"serve", "lookup"}, "ikind"), infixKey
